@@ -1277,3 +1277,29 @@ def rule_nonneg_before_sqrt(ctx):
             r.ok(f.qualname, sample={"driver": f.qualname, "paths": len(results), "spectrum at the funnel": "non-negative on every path (under absorb in {both, lsqrt, rsqrt})"})
     r.floor(n, 3, "hermitian eigendecomposition split drivers")
     return r
+
+
+def rule_partial_selection(ctx):
+    r = RuleResult(
+        "partial-selection",
+        "a split driver that asks a *partial* eigen-solver for k eigenpairs of a hermitian matrix to build the best rank-k approximation has "
+        "to ask for the largest *magnitude* ones (which='LM'): the solver's default selects the smallest algebraic eigenvalues, which is "
+        "only the right end of the spectrum for negative definite input",
+    )
+    m = ctx.prog.module(DECOMP)
+    n = 0
+    for f, how, key in _registered_drivers(ctx):
+        for c in ast.walk(f.node):
+            if not (isinstance(c, ast.Call) and (dotted(c.func) or "").endswith("base_linalg.eigh") and any(k.arg == "k" for k in c.keywords)):
+                continue
+            n += 1
+            which = next((k.value for k in c.keywords if k.arg == "which"), None)
+            q = f"{f.qualname}->eigh[k]"
+            if which is not None and const_value(which, None) in ("LM", "lm"):
+                r.ok(q, sample={"driver": f.qualname, "selection": "which='LM'"})
+            else:
+                r.bad(Finding("partial-selection", f.qualname, f"`{src_of(c)[:50]}` requests k eigenpairs with the solver's default selection (smallest algebraic), not the largest "
+                                                               "magnitude ones: the truncation is not the best rank-k approximation for indefinite input",
+                              where=f"{m.relpath}:{c.lineno}", operand="which"))
+    r.floor(n, 1, "partial hermitian eigen-solves inside split drivers")
+    return r
